@@ -49,6 +49,9 @@ type ProxyParams struct {
 	Garbage      int          // client connections that send malformed input (C08)
 	UpGarbage    bool         // upstreams may answer with malformed bytes (C08)
 	Filters      []FilterSpec // scripted stream filters on the listener (C14)
+	Acts         *RouteActs   // generated route actions (C17)
+	TimeoutProbe bool         // C17: requests whose upstream never answers measure the effective timeout
+	NoRefuse     bool         // every host accepts connections
 }
 
 // Proxy is the W-proxy world.
@@ -118,6 +121,13 @@ func DrawProxyParams(ch *sim.Choices, prop string) ProxyParams {
 	p.WorkerPool = !ch.Bool("params", "noworkerpool")
 	p.ConnTimeoutS = pickFrom(ch, "params", "conntimeout", []int{0, 1, 3})
 	p.BigBodies = ch.Chance("params", "big", 1, 4)
+	if prop == "C17" {
+		p.Proto = pickFrom(ch, "params", "proto17", []string{"http1", "bolt", "boltv2"})
+		p.Protos, p.Auto = []string{p.Proto}, false
+		p.Faults, p.NoRefuse = true, true
+		p.LB = pickFrom(ch, "params", "lb17", []string{"LB_REQUEST_ROUNDROBIN", "LB_ROUNDROBIN", "LB_RANDOM"})
+		p.NHosts = 2 + ch.Pick("params", "nhosts17", 2)
+	}
 	if prop == "C14" || (prop == "C03" && ch.Chance("params", "filters", 1, 5)) {
 		// f0 is a plain tagger in front (it lets the oracle attribute send-filter calls)
 		p.Filters = []FilterSpec{{Name: "f0", Phase: 0, Send: ch.Bool("params", "f0send")}}
@@ -148,6 +158,16 @@ func DrawProxyParams(ch *sim.Choices, prop string) ProxyParams {
 		p.Oneway = ch.Chance("params", "oneway", 1, 3)
 		p.ClientLeaves = ch.Chance("params", "leaves", 1, 3)
 		p.ProtoTimeout = ch.Chance("params", "prototimeout", 1, 4)
+	}
+	if prop == "C17" {
+		p.Acts = DrawRouteActs(ch, p.Proto)
+		p.ClientLeaves, p.Oneway, p.IdleCloses = false, false, 0
+		p.MaxConns, p.MaxReqs, p.MaxPending = 0, 0, 0
+		if ch.Chance("params", "timeoutprobe", 1, 3) {
+			p.TimeoutProbe = true
+			p.RetryOn, p.NumRetries, p.TryMs, p.ProtoTimeout = false, 0, 0, false
+			p.GlobalMs = pickFrom(ch, "params", "globalms17", []int{0, 4000, 9000})
+		}
 	}
 	return p
 }
@@ -251,15 +271,19 @@ func (w *Proxy) buildConfig() []byte {
 		}
 		lis["stream_filters"] = sf
 	}
+	routerCfg := J{"router_config_name": "r0", "virtual_hosts": []J{{
+		"name": "vh", "domains": []string{"*"},
+		"routers": []J{{"match": match, "route": route}},
+	}}}
+	if p.Acts != nil {
+		routerCfg = w.c17Router(route)
+	}
 	cfg := J{
 		"close_graceful": true,
 		"servers": []J{{
 			"default_log_path": logPath(), "default_log_level": logLevel(), "processor": 1,
 			"listeners": []J{lis},
-			"routers": []J{{"router_config_name": "r0", "virtual_hosts": []J{{
-				"name": "vh", "domains": []string{"*"},
-				"routers": []J{{"match": match, "route": route}},
-			}}}},
+			"routers":   []J{routerCfg},
 		}},
 		"cluster_manager": J{"clusters": []J{cluster}},
 	}
@@ -384,7 +408,7 @@ func (w *Proxy) Setup() error {
 	if _, err := StartMosn(w.cfgJSON); err != nil {
 		return err
 	}
-	if p.Faults {
+	if p.Faults && !p.NoRefuse {
 		for _, a := range w.hostAddrs {
 			if ch.Chance("params", "hostmode", 1, 6) {
 				w.hostMode[a] = 1 + ch.Pick("params", "hostmodekind", 2)
@@ -461,10 +485,18 @@ func (w *Proxy) effGlobal(r *peers.ReqRec) time.Duration {
 	if w.P.GlobalMs > 0 {
 		g = time.Duration(w.P.GlobalMs) * time.Millisecond
 	}
+	if v := r.Extra["hdr_timeout_ms"]; v != "" {
+		var ms int
+		fmt.Sscan(v, &ms)
+		g = time.Duration(ms) * time.Millisecond
+	}
 	if v := r.Extra["ptimeout"]; v != "" && v != "0" {
 		var ms int
 		fmt.Sscan(v, &ms)
 		g = time.Duration(ms) * time.Millisecond
+	}
+	if g < 0 {
+		g = 60 * time.Second
 	}
 	return g
 }
@@ -705,7 +737,16 @@ func (w *Proxy) setupXClient(ci int, proto string, reqIdxP *int) {
 			if p.ProtoTimeout {
 				f.Timeout = int32(pickFrom(ch, "work", "ptimeout", []int{0, 30, 300, 3000}))
 			}
-			f.Headers = []peers.KV{{K: "service", V: fmt.Sprintf("svc%d", k%3)}, {K: "tok", V: tok}}
+			svc := fmt.Sprintf("svc%d", k%3)
+			if p.Acts != nil {
+				svc = fmt.Sprintf("svc%d", ch.Pick("work", "svc", 3))
+			}
+			f.Headers = []peers.KV{{K: "service", V: svc}, {K: "tok", V: tok}}
+			if r.Extra == nil {
+				r.Extra = map[string]string{}
+			}
+			r.Extra["svc"] = svc
+			w.c17RequestExtras(r, &f.Headers, &f.Timeout)
 			if fv := w.drawVerdicts(r); fv != "" {
 				f.Headers = append(f.Headers, peers.KV{K: "x-fv", V: fv})
 			}
@@ -794,7 +835,22 @@ func (w *Proxy) setupH1Client(ci int, reqIdxP *int) {
 			m.Method = pickFrom(ch, "work", "method", []string{"POST", "GET", "PUT", "DELETE"})
 			m.Target = pickFrom(ch, "work", "target", h1Targets)
 			r.Method, r.Target = m.Method, m.Target
-			m.Headers = []peers.KV{{K: "Host", V: "svc.test"}, {K: "X-Tok", V: tok}, {K: "service", V: fmt.Sprintf("svc%d", k%3)}, {K: "User-Agent", V: "verif/1"}, {K: "Content-Type", V: "application/x-verif"}}
+			svc := fmt.Sprintf("svc%d", k%3)
+			if p.Acts != nil {
+				svc = fmt.Sprintf("svc%d", ch.Pick("work", "svc", 3))
+				if svc == "svc1" && p.Acts.Rewrite != "" && ch.Chance("work", "pretarget", 2, 3) {
+					m.Target = pickFrom(ch, "work", "pretarget", []string{"/pre/x", "/pre/a/b?q=1", "/pre", "/pre/", "/prefix-not/x"})
+					r.Target = m.Target
+				}
+			}
+			if p.Acts != nil && (svc == "svc2" || m.Target == "/a?") {
+				// (local replies echo a normalised path; the empty-query case is a known C01 finding)
+				m.Target = pickFrom(ch, "work", "simpletarget", []string{"/x", "/a/b?q=1", "/"})
+				r.Target = m.Target
+			}
+			r.Extra["svc"] = svc
+			m.Headers = []peers.KV{{K: "Host", V: "svc.test"}, {K: "X-Tok", V: tok}, {K: "service", V: svc}, {K: "User-Agent", V: "verif/1"}, {K: "Content-Type", V: "application/x-verif"}}
+			w.c17RequestExtras(r, &m.Headers, nil)
 			if fv := w.drawVerdicts(r); fv != "" {
 				m.Headers = append(m.Headers, peers.KV{K: "X-Fv", V: fv})
 			}
@@ -981,4 +1037,28 @@ func (w *Proxy) drawVerdicts(r *peers.ReqRec) string {
 		}
 	}
 	return strings.Join(parts, ",")
+}
+
+// c17RequestExtras: timeout sources carried by the request itself, and (timeout
+// probe) the script that lets the effective timeout be observed.
+func (w *Proxy) c17RequestExtras(r *peers.ReqRec, hdrs *[]peers.KV, protoTimeout *int32) {
+	p, ch := w.P, w.S.Ch
+	if p.Acts == nil {
+		return
+	}
+	if !p.TimeoutProbe {
+		return
+	}
+	if ch.Chance("work", "hdrtimeout", 1, 2) {
+		ms := pickFrom(ch, "work", "hdrtimeoutms", []int{2000, 6000, 12000})
+		*hdrs = append(*hdrs, peers.KV{K: "x-mosn-global-timeout", V: fmt.Sprint(ms)})
+		r.Extra["hdr_timeout_ms"] = fmt.Sprint(ms)
+	}
+	if protoTimeout != nil && ch.Chance("work", "prototimeout17", 1, 2) {
+		ms := pickFrom(ch, "work", "prototimeoutms", []int{1000, 3000, 7500, 15000})
+		*protoTimeout = int32(ms)
+	}
+	if ch.Chance("work", "neverans", 2, 3) {
+		r.Script = []peers.Action{{Kind: "never"}}
+	}
 }
